@@ -182,21 +182,34 @@ def gen_unit(rng):
             op, bad = rng.choice([("set-no-equals", "novalue"), ("set-empty-name", "=1"), ("set-empty-macro-name", "@=1"),
                                   ("set-empty-value", "x="), ("set-duplicate", None), ("set-duplicate-macro", None),
                                   ("set-value-nothing", "x=.a")])
-            if op == "set-duplicate":
-                parts["sets"] = parts["sets"] + ["d=1", "d=2"]
-            elif op == "set-duplicate-macro":
-                parts["sets"] = parts["sets"] + ["@d=1", "@d=.a"]
+            if op in ("set-duplicate", "set-duplicate-macro"):
+                # the two definitions of one name at random positions among the other --set options (adjacent or not)
+                first, second = ("d=1", "d=2") if op == "set-duplicate" else ("@d=1", "@d=.a")
+                sets = list(parts["sets"]) + ["fill%d=%d" % (i, i) for i in range(rng.choice((0, 0, 1, 2, 3)))]
+                if rng.random() < 0.3:
+                    sets.append("@d=.b" if op == "set-duplicate" else "d=7")     # same name in the other namespace: legal
+                rng.shuffle(sets)
+                i = rng.randrange(len(sets) + 1)
+                sets.insert(i, first)
+                j = rng.randrange(len(sets) + 1)
+                sets.insert(j, second)
+                parts["sets"] = sets
+                op = op + (":adjacent" if abs(sets.index(first) - sets.index(second)) == 1 else ":apart")
             else:
                 parts["sets"] = parts["sets"] + [bad]
         else:
             pos = "style"
-            op = rng.choice(["csv-json-option", "csv-text-option", "json-text-option", "text-json-option", "csv-no-select", "csv-group",
+            op = rng.choice(["csv-json-option", "csv-text-option", "csv-json-and-text-option", "json-text-option", "text-json-option", "csv-no-select", "csv-group",
                              "csv-merge", "unknown-style", "unknown-on-error", "text-headers-no-select"])
             parts["extra"] = []
             if op == "csv-json-option":
                 parts.update(style="csv", group=None, selects=[".a=c0"], extra=rng.choice([["--style", "pretty"], ["--utf8-strings"]]))
             elif op == "csv-text-option":
                 parts.update(style="csv", group=None, selects=[".a=c0"], extra=rng.choice([["--headers"], ["--items-seperator", ";"], ["--null-keyword", "x"]]))
+            elif op == "csv-json-and-text-option":
+                j, t = rng.choice([["--style", "pretty"], ["--utf8-strings"]]), rng.choice([["--headers"], ["--items-seperator", ";"], ["--null-keyword", "x"]])
+                ex = j + t if rng.random() < 0.5 else t + j
+                parts.update(style="csv", group=None, selects=[".a=c0"], extra=ex)
             elif op == "json-text-option":
                 parts.update(style="json", extra=rng.choice([["--headers"], ["--items-seperator", ";"], ["--missing-value-keyword", "x"], ["--escape-sequance", "\"q"]]))
             elif op == "text-json-option":
